@@ -7,6 +7,10 @@ Tier-A extractor for C12 (purity): regenerates *data* from /repo's current AST.
                assignment on something that is not `self` (`arr.shape = ...`)
   selfAssigns  every site that changes the state of `self`: `self.<attr> = ...`, `self.<attr> op= ...`,
                `setattr(self, ...)`, `object.__setattr__(self, ...)`, `self.__dict__` / `vars(self)` accesses
+  callArgs     the array arguments at the call sites of the per-window functions (`self.apply_on_window(...)`,
+               `self._apply_on_within_year_window(...)`, `self._apply_on_window(...)`, `self._apply_debiasing_steps(...)`):
+               (file, function, callee, parameter, normalised argument text, syntactic shape) — whether the window
+               function receives the caller's array itself (a name), an indexed copy `x[idx]`, or a basic slice (a view)
   globalState  every `global` / `nonlocal` statement, every decorator whose name contains "cache", every assignment
                to an attribute of `cls` / of a class name (state that survives a call outside the instance)
 
@@ -28,6 +32,7 @@ INPLACE_METHODS = {"sort", "fill", "put", "resize", "partition", "itemset", "set
                    "__iadd__", "__isub__", "__imul__", "__itruediv__", "byteswap", "shuffle"}
 INPLACE_FUNCS = {"copyto", "put", "put_along_axis", "putmask", "place", "fill_diagonal", "shuffle"}
 NP_ROOTS = {"np", "numpy", "scipy", "random"}
+WINDOW_CALLEES = {"apply_on_window", "_apply_on_within_year_window", "_apply_on_window", "_apply_debiasing_steps"}
 
 
 def lstr(s):
@@ -68,7 +73,7 @@ class Scan(ast.NodeVisitor):
         self.scope = []
         self.cls = []
         self.class_names = class_names
-        self.sites, self.selfs, self.globs = [], [], []
+        self.sites, self.selfs, self.globs, self.callargs = [], [], [], []
 
     # ---- scopes
     def fn(self):
@@ -185,7 +190,24 @@ class Scan(ast.NodeVisitor):
         self.globs.append((self.file, self.fn(), "nonlocal", ",".join(node.names)))
 
     # ---- calls
+    def call_args(self, node):
+        f = node.func
+        if not (isinstance(f, ast.Attribute) and isinstance(f.value, ast.Name) and f.value.id == "self" and f.attr in WINDOW_CALLEES):
+            return
+        items = [(f"arg{k}", a) for k, a in enumerate(node.args)] + [(kw.arg or "**", kw.value) for kw in node.keywords]
+        for pname, a in items:
+            if isinstance(a, ast.Name):
+                shape = "name"
+            elif isinstance(a, ast.Subscript) and isinstance(a.value, ast.Name) and isinstance(a.slice, ast.Name):
+                shape = "indexByName"
+            elif isinstance(a, ast.Subscript) and any(isinstance(n, ast.Slice) for n in ast.walk(a.slice)):
+                shape = "basicSlice"
+            else:
+                shape = "other"
+            self.callargs.append((self.file, self.fn(), f.attr, pname, ast.unparse(a), shape))
+
     def visit_Call(self, node):
+        self.call_args(node)
         f = node.func
         ftxt = ast.unparse(f)
         txt = ast.unparse(node)
@@ -225,14 +247,15 @@ def scan(repo):
         for n in ast.walk(trees[f]):
             if isinstance(n, ast.ClassDef):
                 class_names.add(n.name)
-    sites, selfs, globs = [], [], []
+    sites, selfs, globs, callargs = [], [], [], []
     for f in files:
         sc = Scan(f, class_names)
         sc.visit(trees[f])
         sites += sc.sites
         selfs += sc.selfs
         globs += sc.globs
-    return files, sites, selfs, globs
+        callargs += sc.callargs
+    return files, sites, selfs, globs, callargs
 
 
 def numbered(sites):
@@ -254,10 +277,10 @@ def generate(repo):
     errors = []
     out = ["", "import IbicusModel.Model.Purity", "", "namespace Gen.WriteSites", "open Model.Purity", ""]
     try:
-        files, sites, selfs, globs = scan(repo)
+        files, sites, selfs, globs, callargs = scan(repo)
     except (OSError, SyntaxError, ValueError) as ex:
         errors.append(f"untranslatable:writesites: {type(ex).__name__} {ex}")
-        files, sites, selfs, globs = [], [], [], []
+        files, sites, selfs, globs, callargs = [], [], [], [], []
     out.append("/-- the anchored files that were scanned -/")
     out.append("def files : List String := [" + ", ".join(lstr(f) for f in files) + "]")
     out.append("")
@@ -276,6 +299,11 @@ def generate(repo):
     out.append("/-- state outside the instance that could survive a call: global/nonlocal, cache decorators, class attributes -/")
     out.append("def globalState : List GlobalState := [")
     rows = [f"  ⟨{lstr(file)}, {lstr(fn)}, {lstr(kind)}, {lstr(what)}⟩" for (file, fn, kind, what) in globs]
+    out.append(_join_rows(rows) + "\n]")
+    out.append("")
+    out.append("/-- the arguments handed to the per-window functions (file, function, callee, parameter, argument text, shape) -/")
+    out.append("def callArgs : List CallArg := [")
+    rows = [f"  ⟨{lstr(file)}, {lstr(fn)}, {lstr(callee)}, {lstr(par)}, {lstr(txt)}, .{shape}⟩" for (file, fn, callee, par, txt, shape) in callargs]
     out.append(_join_rows(rows) + "\n]")
     out.append("")
     out.append("end Gen.WriteSites")
